@@ -1685,6 +1685,28 @@ func (p *Parser) evaluateSwitch(ctx context) (Statement, error) {
 	if nextToken.Type() != lexer.NEWLINE {
 		return nil, p.expectedNewlineError(nextToken)
 	}
+	// The tag is evaluated once, however many cases are compared with it: unless it is a literal or a plain
+	// variable (which can be read again and again), its value is kept in a hidden variable.
+	tagExpr := switchExpr
+	var tagDefinition Statement
+
+	switch switchExpr.StatementType() {
+	case STATEMENT_TYPE_BOOL_LITERAL, STATEMENT_TYPE_INT_LITERAL, STATEMENT_TYPE_STRING_LITERAL, STATEMENT_TYPE_VAR_EVALUATION:
+		// These can be evaluated repeatedly.
+	default:
+		global := ctx.global()
+		name := "_sw"
+
+		if global {
+			name = buildPrefixedName(p.prefix, name)
+		}
+		tagVariable := NewVariable(name, switchExprValueType, global, false)
+		tagDefinition = VariableDefinition{
+			variables: []Variable{tagVariable},
+			values:    []Expression{switchExpr},
+		}
+		tagExpr = VariableEvaluation{tagVariable}
+	}
 	fakeIf := If{
 		ifBranch: IfBranch{
 			condition: BooleanLiteral{false}, // Use a fake if-branch that isn't entered if only a default branch has been set in switch.
@@ -1739,7 +1761,7 @@ func (p *Parser) evaluateSwitch(ctx context) (Statement, error) {
 				return nil, p.atError(fmt.Sprintf("%s value cannot be compared with switch's %s value", compareExprValueType.String(), switchExprValueType.String()), compareExprToken)
 			}
 			ifBranch := IfBranch{
-				condition: NewComparison(switchExpr, COMPARE_OPERATOR_EQUAL, compareExpr),
+				condition: NewComparison(tagExpr, COMPARE_OPERATOR_EQUAL, compareExpr),
 				body:      statements,
 			}
 
@@ -1764,6 +1786,16 @@ func (p *Parser) evaluateSwitch(ctx context) (Statement, error) {
 
 	if nextToken.Type() != lexer.CLOSING_CURLY_BRACKET {
 		return nil, p.expectedError(`"}"`, nextToken)
+	}
+
+	// If the tag is kept in a hidden variable, define it first, then branch.
+	if tagDefinition != nil {
+		return If{
+			ifBranch: IfBranch{
+				condition: BooleanLiteral{true},
+				body:      []Statement{tagDefinition, fakeIf},
+			},
+		}, nil
 	}
 	return fakeIf, nil
 }
